@@ -99,7 +99,9 @@ CHECKS.update({
             "The observer invariant I9 (object file hashes to its name, metadata document is a complete supplied version, "
             "pid reference is one complete cid) is evaluated on the kernel-visible tree after EVERY scheduling step of every "
             "interleaving of a writer with a concurrent reader (contents of 0, 1, one buffer, three buffers + 7 bytes) and "
-            "on the crash image before every file-system operation of 13 calls, and after every possible short write(2).",
+            "on the crash image before every file-system operation of 13 calls, after every possible short write(2), and on every "
+            "image that follows each fault site of those calls (one-off and persistent EIO). Known finding C09-F1 (shutil.move "
+            "copies onto the permanent address when its rename fails once) is listed by exact instance.",
             T_NOTE + " Process death = completed system calls are durable, user-space buffers are not.",
             "stateless model checking with a per-step observer + exhaustive crash-point enumeration", "4/C09"),
     "C10": ("F", "model_checking",
